@@ -41,7 +41,7 @@ func Max(_ context.Context, args ...core.Value) (core.Value, error) {
 
 		fv := toFloat(value)
 
-		if fv > max {
+		if fv > max || idx == 0 {
 			max = fv
 		}
 
